@@ -190,11 +190,13 @@ func runMemory(c *mc.Ctx) {
 		}
 		return mc.Bytes(c.Seed, name, n, n)
 	}
-	type mcase struct {
-		op, dst, msg, n int
-	}
-	var cases []mcase
+	total := 0
+	// One enumeration per function, one function at a time: anything the package might remember between
+	// calls is then exercised by a single function here (call histories across functions are the business
+	// of the single-goroutine `history` sub-space, where they are reproducible).
 	for oi, o := range ops {
+		oi, o := oi, o
+		var cases []mcase
 		for _, d := range dstLens {
 			for _, m := range msgLens {
 				if o.expand {
@@ -206,11 +208,19 @@ func runMemory(c *mc.Ctx) {
 				}
 			}
 		}
+		total += len(cases)
+		memoryOp(c, o, cases, mk)
 	}
-	c.Rep.Extra["memory_cases"] = len(cases)
-	par(c, "memory", len(cases), func(w *mc.W, i int) {
+	c.Rep.Extra["memory_cases"] = total
+}
+
+type mcase struct {
+	op, dst, msg, n int
+}
+
+func memoryOp(c *mc.Ctx, o op, cases []mcase, mk func(string, int) []byte) {
+	par(c, "memory/"+o.name, len(cases), func(w *mc.W, i int) {
 		mcs := cases[i]
-		o := ops[mcs.op]
 		dst, msg := mk("dst", mcs.dst), mk("msg", mcs.msg)
 		want := o.want(dst, msg, mcs.n)
 		parts := []mpart{{name: "DST", data: dst}, {name: "msg", data: msg}}
